@@ -1961,10 +1961,43 @@ def do_log_segment_case(req):
         exp_keys.add('placeholder')
     if 'a' in seg:
         exp_keys.add('arg')
-    return {'violates': set(out) != exp_keys, 'what': 'segment %r decoded to %r' % (seg, out) if set(out) != exp_keys else '', 'decoded': repr(out)}
+    if set(out) != exp_keys:
+        return {'violates': True, 'what': 'segment %r decoded to %r' % (seg, out), 'decoded': repr(out)}
+    # the argument's fields, written from the property: each key present appears with its value ("present" is key presence:
+    # 0 and string index 0 are values), the per-category fields under the category / availability the format names
+    if 'a' in seg:
+        a = seg['a']
+        want = {}
+        for rk, fk in (('a', 'availability'), ('p', 'privacy'), ('c', 'category')):
+            if rk in a:
+                want[fk] = a[rk]
+        if a.get('c') == 1:
+            for rk, fk in (('sc', 'scalar_category'), ('st', 'scalar_type')):
+                if rk in a:
+                    want[fk] = a[rk]
+        if 'or' in a and a.get('a', 3) == 3:
+            want['object_representation'] = strings[a['or']] if a.get('c') == 2 else a['or']
+        if out.get('arg') != want:
+            return {'violates': True, 'what': 'the argument %r of a message segment decoded to %r, its fields say %r' % (a, out.get('arg'), want),
+                    'decoded': repr(out)}
+    return {'violates': False, 'what': '', 'decoded': repr(out)}
 
 
-HANDLERS.update({'log_segment_case': do_log_segment_case})
+def do_log_segment_search(req):
+    import itertools
+    tried = 0
+    for keys in itertools.chain.from_iterable(itertools.combinations(('a', 'p', 'c', 'sc', 'st', 'or'), n) for n in range(7)):
+        for val in (0, 1, 2, 3):
+            a = {k: (val if k != 'a' else (3 if val else 0)) for k in keys}
+            tried += 1
+            rq = {'kind': 'log_segment_case', 'segment': {'a': a}}
+            r = do_log_segment_case(rq)
+            if r['violates']:
+                return {'tried': tried, 'bound': 'every subset of the argument keys x values 0..3', 'found': dict(r, request=rq)}
+    return {'tried': tried, 'bound': 'every subset of the argument keys x values 0..3', 'found': None}
+
+
+HANDLERS.update({'log_segment_case': do_log_segment_case, 'log_segment_search': do_log_segment_search})
 
 
 # ------------------------------------------------------------------------------ frame condition: module-level state
